@@ -23,10 +23,16 @@ pub struct PCase {
     pub prim: &'static str, // "u8" | "i8" | "str"
     /// second primitive counterpart (i16) with a dedicated literal per variant: (value, written before the default instruction?)
     pub second: Vec<Option<(i64, bool)>>,
+    /// the dedicated instruction for the second counterpart is a `#[pattern(i16| v)]` + `#[into(i16| { v })]` pair instead
+    /// of a literal: a literal for one counterpart and a pattern for another on the same variant (seed C09-09)
+    pub second_pattern: Vec<bool>,
     pub arms: Vec<Arm>,
     pub kinds: usize, // 0 = map_owned (+try), 1 = map (owned + ref, + try), 2 = from_owned only (patterns need no into)
     /// literal variants carry a payload field that From fills from its #[ghost({..})] default (seed C09-04)
     pub lit_payload: bool,
+    /// default literals are written as named constants (`#[literal(K0)]`): a literal instruction takes any constant
+    /// expression usable as a pattern, not only literal tokens (seed C09-08)
+    pub lit_const: bool,
     pub tags: Vec<String>,
 }
 
@@ -79,13 +85,16 @@ pub fn gen(ctx: &mut Ctx, max_variants: usize) -> Option<PCase> {
     // a second counterpart type (i16): every variant maps to it through a dedicated #[literal(i16| v)] - or, when it
     // has none, through its default literal
     let mut second = vec![];
+    let mut second_pattern = vec![];
     if prim != "str" && kinds == 0 && arms.iter().all(|a| matches!(a, Arm::Literal(_))) && ctx.flag() {
         for (i, _) in arms.iter().enumerate() {
-            second.push(match ctx.choose(3) {
+            let c = ctx.choose(4);
+            second.push(match c {
                 0 => None,
                 1 => Some((300 + i as i64, false)),
                 _ => Some((300 + i as i64, true)),
             });
+            second_pattern.push(c == 3);
         }
         // the default literals must be pairwise distinct and valid for both types, else the i16 match has unreachable / out-of-range arms
         let lits: Vec<i64> = arms.iter().filter_map(|a| if let Arm::Literal(k) = a { Some(*k) } else { None }).collect();
@@ -120,7 +129,16 @@ pub fn gen(ctx: &mut Ctx, max_variants: usize) -> Option<PCase> {
     if lit_payload {
         tags.push("literal-variant-with-payload".into());
     }
-    Some(PCase { prim, second, arms, kinds, lit_payload, tags })
+    // (a typed constant cannot be the default literal of two primitive counterparts at once)
+    // (... and a constant pattern does not match through a reference the way a literal pattern does: owned kinds only)
+    let lit_const = kinds != 1 && second.is_empty() && arms.iter().any(|a| matches!(a, Arm::Literal(_))) && ctx.flag();
+    if lit_const {
+        tags.push("literal-as-constant".into());
+    }
+    if second_pattern.iter().any(|x| *x) {
+        tags.push("literal+dedicated-pattern".into());
+    }
+    Some(PCase { prim, second, second_pattern, arms, kinds, lit_payload, lit_const, tags })
 }
 
 impl PCase {
@@ -186,10 +204,13 @@ impl PCase {
             match a {
                 Arm::Literal(k) => {
                     let vn = if self.lit_payload { format!("{}(#[ghost({{ 5 }})] i32)", vn) } else { vn };
+                    let lk = if self.lit_const { format!("K{}", i) } else { self.lit(*k) };
                     match self.second.get(i).cloned().flatten() {
-                        Some((v, true)) => { let _ = writeln!(o, "    #[literal(i16| {})] #[literal({})] {},", v, self.lit(*k), vn); }
-                        Some((v, false)) => { let _ = writeln!(o, "    #[literal({})] #[literal(i16| {})] {},", self.lit(*k), v, vn); }
-                        None => { let _ = writeln!(o, "    #[literal({})] {},", self.lit(*k), vn); }
+                        // (the literal is dedicated to the first counterpart: a default literal would apply to i16 too, next to the pattern)
+                        Some((v, _)) if self.second_pattern[i] => { let _ = writeln!(o, "    #[pattern(i16| {v})] #[into(i16| {{ {v} }})] #[literal({}| {})] {},", ty, lk, vn); }
+                        Some((v, true)) => { let _ = writeln!(o, "    #[literal(i16| {})] #[literal({})] {},", v, lk, vn); }
+                        Some((v, false)) => { let _ = writeln!(o, "    #[literal({})] #[literal(i16| {})] {},", lk, v, vn); }
+                        None => { let _ = writeln!(o, "    #[literal({})] {},", lk, vn); }
                     }
                 }
                 Arm::Range(a, b, v) => {
@@ -223,6 +244,13 @@ impl PCase {
     }
     pub fn render_module(&self) -> String {
         let mut o = String::from("#![allow(unused, non_camel_case_types, unreachable_patterns, clippy::all)]\nuse crate::common::*;\ntype StaticStr = &'static str;\n");
+        if self.lit_const {
+            for (i, a) in self.arms.iter().enumerate() {
+                if let Arm::Literal(k) = a {
+                    let _ = writeln!(o, "pub const K{}: {} = {};", i, self.ty(), self.lit(*k));
+                }
+            }
+        }
         let _ = writeln!(o, "#[derive(Clone, Debug, PartialEq, o2o::o2o)]\n{}", self.item_text(false));
         let _ = writeln!(o, "#[derive(Clone, Debug, PartialEq, o2o::o2o)]\n{}", self.item_text(true));
         let ty = self.ty();
